@@ -236,6 +236,161 @@ def width0_file(rng, ptype, n, plan):
     return spec, data
 
 
+# ---- metadata a real-world writer emits and tools/pq.py's optional_meta does not (coverage audit: the parse branches of
+#      src/thrift/parquet_types.c for logicalType, converted types, deprecated statistics, index / bloom offsets ...)
+
+def _logical_type(k):
+    """LogicalType union member number k of parquet.thrift (plus two members the pinned format does not know)."""
+    T, S, F = pq.TStruct, pq.CT_STRUCT, pq.TField
+    unit = lambda u: T([F(u, S, T([]))])
+    members = {
+        1: T([]), 2: T([]), 3: T([]), 4: T([]),                                   # STRING MAP LIST ENUM
+        5: T([F(1, pq.CT_I32, 2), F(2, pq.CT_I32, 9), F(7, pq.CT_I64, 1)]),       # DECIMAL(scale, precision) + unknown field
+        6: T([]),                                                                  # DATE
+        7: T([F(1, pq.CT_TRUE, True), F(2, S, unit(1 + k % 3)), F(5, pq.CT_BINARY, b"x")]),   # TIME(isAdjustedToUTC, unit) + unknown
+        8: T([F(1, pq.CT_FALSE, False), F(2, S, unit(1 + (k + 1) % 3)), F(3, pq.CT_I32, 4)]),   # TIMESTAMP + unknown
+        10: T([F(1, pq.CT_BYTE, 32), F(2, pq.CT_TRUE, True), F(3, pq.CT_STRUCT, T([]))]),     # INTEGER(bitWidth, isSigned) + unknown
+        11: T([]), 12: T([]), 13: T([]), 14: T([]), 15: T([]),                    # UNKNOWN JSON BSON UUID FLOAT16
+        16: T([F(1, pq.CT_BYTE, 1)]),                                             # VARIANT (newer format versions)
+        17: T([F(1, pq.CT_BINARY, b"OGC:CRS84")]),                                # GEOMETRY (newer format versions)
+    }
+    ids = sorted(members)
+    m = ids[k % len(ids)]
+    return m, T([F(m, S, members[m])])
+
+
+def enrich_metadata(data, rng):
+    """Add to a file of the reference writer the optional metadata other writers emit: SchemaElement.converted_type /
+    scale / precision / field_id / logicalType (every union member in turn), Statistics with the deprecated max / min,
+    distinct_count and the is_*_value_exact flags, ColumnMetaData.index_page_offset / bloom_filter_offset / _length /
+    size_statistics, ColumnChunk offset-index and column-index locations (real OffsetIndex / ColumnIndex structures
+    are inserted between the last row group and the footer), RowGroup.sorting_columns.  The page data is untouched."""
+    T, F, L = pq.TStruct, pq.TField, pq.TList
+    pf = pq.read_file(data, decode_values=False)
+    n = len(data)
+    flen = int.from_bytes(data[n - 8:n - 4], "little")
+    fs = n - 8 - flen
+    blob = bytearray()
+    index_loc = {}
+    for rg in pf.chunks:
+        for ch in rg:
+            if ch is None:
+                continue
+            dps = [p for p in ch.pages if p.kind == "DATA_PAGE"]
+            oi = T([F(1, pq.CT_LIST, L(pq.CT_STRUCT, [T([F(1, pq.CT_I64, p.offset), F(2, pq.CT_I32, p.header_len + p.compressed_size),
+                                                        F(3, pq.CT_I64, i)]) for i, p in enumerate(dps)]))])
+            ci = T([F(1, pq.CT_LIST, L(pq.CT_TRUE, [False] * len(dps))), F(2, pq.CT_LIST, L(pq.CT_BINARY, [b"\x00"] * len(dps))),
+                    F(3, pq.CT_LIST, L(pq.CT_BINARY, [b"\xff"] * len(dps))), F(4, pq.CT_I32, 0),
+                    F(5, pq.CT_LIST, L(pq.CT_I64, [0] * len(dps)))])
+            a = pq.thrift_encode_struct(ci)
+            b = pq.thrift_encode_struct(oi)
+            index_loc[(ch.rg, ch.col)] = (fs + len(blob), len(a), fs + len(blob) + len(a), len(b))
+            blob += a + b
+    counter = [rng.randrange(100)]
+
+    def fn(ts):
+        leaf_no = 0
+        for el in ts.get(2).items:
+            if el.get(5) is not None:                      # group
+                if rng.random() < 0.5:
+                    el.set(6, pq.CT_I32, rng.choice([1, 2, 3]))           # MAP / MAP_KEY_VALUE / LIST
+                    el.set(10, pq.CT_STRUCT, T([F(rng.choice([2, 3]), pq.CT_STRUCT, T([]))]))
+                continue
+            if el.get(1) is None:
+                continue
+            counter[0] += 1
+            m, lt = _logical_type(counter[0])
+            el.set(6, pq.CT_I32, rng.choice([0, 5, 6, 9, 10, 17, 19, 21]))
+            el.set(7, pq.CT_I32, 2)
+            el.set(8, pq.CT_I32, 9)
+            if el.get(9) is None:
+                el.set(9, pq.CT_I32, 1000 + leaf_no)
+            el.set(10, pq.CT_STRUCT, lt)
+            leaf_no += 1
+        for r, rg in enumerate(ts.get(4).items):
+            rg.set(4, pq.CT_LIST, L(pq.CT_STRUCT, [T([F(1, pq.CT_I32, 0), F(2, pq.CT_TRUE, True), F(3, pq.CT_FALSE, False)])]))
+            for c, cc in enumerate(rg.get(1).items):
+                md = cc.get(3)
+                st = md.get(12) or T([])
+                mx, mn = st.get(5), st.get(6)
+                st.set(1, pq.CT_BINARY, mx if mx is not None else b"")
+                st.set(2, pq.CT_BINARY, mn if mn is not None else b"")
+                if st.get(3) is None:
+                    st.set(3, pq.CT_I64, 0)
+                st.set(4, pq.CT_I64, 3)
+                st.set(7, pq.CT_TRUE, True)
+                st.set(8, pq.CT_FALSE, False)
+                md.set(12, pq.CT_STRUCT, st)
+                md.set(10, pq.CT_I64, fs)                  # index_page_offset (no reader uses index pages)
+                md.set(14, pq.CT_I64, fs)                  # bloom filter "at" the index region (never read by a column read)
+                md.set(15, pq.CT_I32, 0)
+                md.set(16, pq.CT_STRUCT, T([F(1, pq.CT_I64, 7), F(2, pq.CT_LIST, L(pq.CT_I64, [1, 2])), F(3, pq.CT_LIST, L(pq.CT_I64, [3]))]))
+                if (r, c) in index_loc:
+                    a0, al, b0, bl = index_loc[(r, c)]
+                    cc.set(6, pq.CT_I64, a0)
+                    cc.set(7, pq.CT_I32, al)
+                    cc.set(4, pq.CT_I64, b0)
+                    cc.set(5, pq.CT_I32, bl)
+
+    ts, _ = pq.thrift_decode_struct(data, fs, n - 8)
+    fn(ts)
+    footer = pq.thrift_encode_struct(ts)
+    return bytes(data[:fs]) + bytes(blob) + footer + len(footer).to_bytes(4, "little") + pq.MAGIC
+
+
+def rich_extras():
+    """Unknown fields of every wire type thrift_skip has a branch for (replaces pq._extras for one family): byte, i16,
+    i64, double, false, empty binary, list<bool>, set<i32>, empty map, map<i32, struct>, list<struct>, list<list<i32>>,
+    structs nested five deep, a field id needing three varint bytes."""
+    T, F, L, M = pq.TStruct, pq.TField, pq.TList, pq.TMap
+    deep = T([F(1, pq.CT_I32, 5)])
+    for _ in range(5):
+        deep = T([F(1, pq.CT_STRUCT, deep), F(2, pq.CT_BINARY, b"")])
+    return [F(100, pq.CT_I32, -12345), F(101, pq.CT_BINARY, b"unknown\x00field"),
+            F(102, pq.CT_STRUCT, T([F(1, pq.CT_LIST, L(pq.CT_I64, [1, 2, 3])), F(2, pq.CT_TRUE, True)])),
+            F(103, pq.CT_BYTE, 0x7F), F(104, pq.CT_I16, -300), F(105, pq.CT_I64, -(2 ** 62)), F(106, pq.CT_DOUBLE, 2.5),
+            F(107, pq.CT_FALSE, False), F(108, pq.CT_BINARY, b""), F(109, pq.CT_LIST, L(pq.CT_TRUE, [True, False, True])),
+            F(110, pq.CT_SET, L(pq.CT_I32, list(range(20)), is_set=True)), F(111, pq.CT_MAP, M(pq.CT_I32, pq.CT_I32, [])),
+            F(112, pq.CT_MAP, M(pq.CT_I32, pq.CT_STRUCT, [(1, T([F(1, pq.CT_BYTE, 1)])), (2, T([]))])),
+            F(113, pq.CT_LIST, L(pq.CT_STRUCT, [T([F(3, pq.CT_DOUBLE, -0.0)]), T([])])),
+            F(114, pq.CT_LIST, L(pq.CT_LIST, [L(pq.CT_I32, [1, 2]), L(pq.CT_I32, [])])),
+            F(115, pq.CT_STRUCT, deep),
+            F(2000, pq.CT_MAP, M(pq.CT_BINARY, pq.CT_I32, [(b"k", 1)])), F(30000, pq.CT_I16, 1)]
+
+
+def overshoot_spec(rng):
+    """Level and index streams whose last RLE run announces more values than the page has left (the reader takes
+    num_values of them; writers that pad runs exist): OPTIONAL column, dictionary-encoded."""
+    ptype = rng.choice(["INT32", "INT64", "BYTE_ARRAY", "DOUBLE"])
+    root = pq.SchemaNode("schema", "REQUIRED", children=[pq.SchemaNode("v", "OPTIONAL", ptype, 0)])
+    n = rng.choice([5, 8, 13, 40])
+    tail = min(n, rng.choice([1, 3, 9, 20]))
+    defs = [rng.getrandbits(1) for _ in range(n - tail)] + [1] * tail
+    nn = sum(defs)
+    v = [pq.gen_leaf_value(rng, ptype, 0, True) for _ in range(3)]
+    vals = [rng.choice(v) for _ in range(nn - tail)] + [v[0]] * tail
+    p = pq.PageSpec(n, rng.choice(["RLE_DICTIONARY", "PLAIN"]))
+    over = rng.choice([1, 7, 8, 100])
+    head_d = pq.default_plan(defs[:n - tail]) if n > tail else []
+    # the default plan may pad its last bit-packed group: cover the head exactly with groups + literal RLE runs
+    def exact(seq):
+        plan, i = [], 0
+        while len(seq) - i >= 8:
+            plan.append(("bp", 1))
+            i += 8
+        while i < len(seq):
+            plan.append(("rle", 1))
+            i += 1
+        return plan
+    p.def_plan = exact(defs[:n - tail]) + [("rle", tail + over)]
+    p.idx_plan = exact(vals[:nn - tail]) + [("rle", tail + over)]
+    col = pq.ColumnSpec(defs, [0] * n, vals, [p], rng.choice(pq.SUPPORTED_CODECS))
+    col.dict_offset = rng.choice(["present", "absent"])
+    spec = pq.FileSpec(root, [pq.RowGroupSpec(n, [col])])
+    spec.features = {"directed": "rle_overshoot", "over": over, "unsupported": None, "dictionary": p.encoding != "PLAIN"}
+    return spec
+
+
 class _Patched:
     """Temporarily teach the reference writer a value encoding id the format does not define (the body is written as
     PLAIN): used for 'every other integer in the encoding field'."""
@@ -362,6 +517,48 @@ def gen_cases(tier, rng):
         for i in range(3 if thorough else 1):
             spec = big_spec(rng, cname)
             add(f"bigpage/{cname}/{i}", spec, "values", family="big_pages", chooser=any_legal)
+    # C1e. (coverage audit) metadata other writers emit: logical types, converted types, deprecated statistics, page
+    #      index / bloom filter locations, sorting columns - on files of every shape
+    for i in range(120 if thorough else 36):
+        spec = pq.gen_spec(rng, dict_offset=rng.choice(["present", "absent"]), max_rows=20)
+        data = enrich_metadata(pq.write_file(spec, rng), rng)
+        spec.features["rich_metadata"] = True
+        add(f"richmeta/{i}", spec, "values", data=data, family="rich_metadata")
+    # C1f. (coverage audit) unknown fields of every wire type the skipper has a branch for
+    old_extras = pq._extras
+    pq._extras = lambda rng_like=None: rich_extras()
+    try:
+        for i in range(40 if thorough else 12):
+            spec = pq.gen_spec(rng, extra_fields=True, long_form=(i % 3 == 0), max_rows=20)
+            spec.features["rich_extras"] = True
+            add(f"richextras/{i}", spec, "values", family="rich_extras")
+    finally:
+        pq._extras = old_extras
+    # C1f2. (coverage audit, finding FC1) page headers longer than the reader's first 256-byte window: page statistics
+    #       holding long min / max values, at the window boundary and far beyond it
+    for i in range(40 if thorough else 12):
+        L = [100, 110, 118, 119, 120, 121, 130, 300, 1000, 5000, 20000, 150000][i % 12]
+        rep_ = rng.choice(["REQUIRED", "OPTIONAL"])
+        root = pq.SchemaNode("schema", "REQUIRED", children=[pq.SchemaNode("v", rep_, "BYTE_ARRAY", 0)])
+        n = rng.choice([3, 9])
+        defs = [1 if rep_ == "OPTIONAL" and rng.random() < 0.8 else (0 if rep_ == "REQUIRED" else 0) for _ in range(n)]
+        maxdef = 1 if rep_ == "OPTIONAL" else 0
+        vals = [bytes([65 + rng.randrange(26)]) * (L + rng.randrange(3)) for d in defs if d == maxdef]
+        pages = []
+        for cnt in pq.split_pages(rng, [0] * n, n, max_pages=3):
+            p = pq.PageSpec(cnt, rng.choice(["PLAIN", "RLE_DICTIONARY"]))
+            p.stats = True
+            p.crc = rng.random() < 0.5
+            pages.append(p)
+        col = pq.ColumnSpec(defs, [0] * n, vals, pages, rng.choice(pq.SUPPORTED_CODECS))
+        col.dict_offset = rng.choice(["present", "absent"])
+        col.chunk_stats = True
+        spec = pq.FileSpec(root, [pq.RowGroupSpec(n, [col])])
+        spec.features = {"directed": "long_page_header", "value_length": L, "unsupported": None, "dictionary": True}
+        add(f"longheader/{i}", spec, "values", family="long_page_header")
+    # C1g. (coverage audit) a last RLE run that announces more values than the page has left
+    for i in range(60 if thorough else 16):
+        add(f"overshoot/{i}", overshoot_spec(rng), "values", family="rle_overshoot")
     # C2. long streams: run headers of two varint bytes (RLE runs > 63 values, bit-packed runs > 63 groups), pages of
     #     thousands of entries
     for i in range(40 if thorough else 8):
@@ -421,6 +618,33 @@ def gen_cases(tier, rng):
             spec.features["unsupported"] = ("page_type", pt, -1)
             bad = [(r, c) for r, rg in enumerate(spec.row_groups) for c, col in enumerate(rg.columns) if col.defs and col.pages]
             add(f"unsupported/page_type{pt}/{i}", spec, "reject", bad, data=data, family="unsupported_page_type")
+    # D3. (coverage audit) a dictionary-encoded chunk whose dictionary page the metadata does not lead to
+    #     (dictionary_page_offset removed, data_page_offset points behind the dictionary page): DICTIONARY_NOT_FOUND;
+    #     a column chunk without meta_data (metadata in another file: not implemented)
+    for i in range(30 if thorough else 8):
+        spec = pq.gen_spec(rng, encoding=rng.choice(["RLE_DICTIONARY", "PLAIN_DICTIONARY"]), dict_offset="present", long_form=False)
+        data = pq.write_file(spec, rng)
+        kind = "no_dictionary" if i % 2 == 0 else "no_meta_data"
+
+        def fn(ts, kind=kind):
+            for rg in ts.get(4).items:
+                for cc in rg.get(1).items:
+                    if kind == "no_dictionary":
+                        cc.get(3).remove(11)
+                    else:
+                        cc.set(1, pq.CT_BINARY, b"other.parquet")
+                        cc.remove(3)
+        data = pq.rewrite_footer(data, fn)
+        lv = spec.leaves()
+        if kind == "no_dictionary":
+            bad = [(r, c) for r, rg in enumerate(spec.row_groups) for c, col in enumerate(rg.columns)
+                   if col.defs and any(p.encoding != "PLAIN" and p.n for p in col.pages)
+                   and any(d == lv[c].max_def for d in col.defs)]
+        else:
+            bad = [(r, c) for r, rg in enumerate(spec.row_groups) for c, col in enumerate(rg.columns)]
+        spec.features["unsupported"] = (kind, None, -1)
+        add(f"unsupported/{kind}/{i}", spec, "either" if kind == "no_dictionary" else "reject", bad, data=data,
+            family="unsupported_" + kind)
     # E. codec id 5 (LZ4, deprecated): carquet reads it as a bare LZ4 block (what its own writer emits, FA6); the
     #    format defines id 5 as Hadoop-framed.  Neither layout may ever give wrong values.
     for i in range(200 if thorough else 30):
